@@ -70,3 +70,36 @@ package nilness
 //@ lemma gamma_join(x Nilness, y Nilness, c int)
 //@   requires wfN(x) && wfN(y) && (c == 0 || c == 1) && (gam(x, c) || gam(y, c))
 //@   ensures  gam(latticeMerge[x][y], c)
+
+//@ prop C15
+
+// ---- the abstract state: a valuation of IR values ----
+// The numbering assigns numbers lazily in order of first use and never changes an assignment;
+// it is abstracted by a fixed injective function num (TRUSTED abstraction, listed).
+//@ ghost num(v ir.Value) int
+//@ axiom [num_inj] forall a ir.Value, b ir.Value :: {num(a), num(b)} num(a) == num(b) ==> a == b
+//@ axiom [num_nonneg] forall a ir.Value :: {num(a)} num(a) >= 0
+//@ func (numbering).number
+//@   trusted
+//@   ensures result == num(v)
+//@ extern honnef.co/go/tools/go/types/typeutil.IsPointerLike(T types.Type) bool
+//@   pure
+//@ extern (honnef.co/go/tools/go/ir.Value).Type() types.Type
+//@   pure
+// what the state says about a value that was never stored
+//@ ghost dflt(v ir.Value) ValueNilness = (istype(v, *ir.Parameter) || istype(v, *ir.FreeVar)) ? mk(ValueNilness, MaybeNil, MaybeNil) : ((istype(v, *ir.Builtin) || istype(v, *ir.Function) || istype(v, *ir.Global)) ? mk(ValueNilness, 0, NeverNil) : mk(ValueNilness, 0, 0))
+// the valuation a state denotes
+// (an entry equal to the identity element means "not stored": the identity is never stored)
+//@ ghost val(m []ValueNilness, v ir.Value) ValueNilness = !typeutil.IsPointerLike(v.Type()) ? mk(ValueNilness, 0, NeverNil) : ((num(v) < len(m) && m[num(v)] != mk(ValueNilness, 0, 0)) ? m[num(v)] : dflt(v))
+
+//@ extern slices.Clone(s []ValueNilness) []ValueNilness
+//@   ensures len(result) == len(s) && (forall i int :: {result[i]} 0 <= i && i < len(s) ==> result[i] == s[i])
+//@ func (*state).get
+//@   requires s != nil
+//@   ensures  [val] result == val(s.m, v)
+// set changes the valuation at key and nowhere else
+//@ func (*state).set
+//@   requires s != nil
+//@   modifies s.m, s.cloned
+//@   ensures  [key]    typeutil.IsPointerLike(key.Type()) && value != mk(ValueNilness, 0, 0) ==> val(s.m, key) == value
+//@   ensures  [others] forall w ir.Value :: {val(s.m, w)} w != key ==> val(s.m, w) == val(old(s.m), w)
